@@ -102,7 +102,15 @@ func c11Run(c *Ctx) {
 		data, top, preview = cr.Bytes, cr.Top, o.Preview
 		prvwConsistent = o.PrvwField == 0
 		// PreviewCR3 walks the layout cameras write: ftyp, moov, xpacket uuid, preview uuid
-		canonicalOrder = o.XMP != nil && !o.TopExtra && o.Tail != 2
+		// PreviewCR3 reads three top-level boxes behind ftyp (moov, xpacket, preview as cameras
+		// write them) and, if the preview has not turned up, up to eight: it is compared with the
+		// generator when the preview box is among those and the first three exist
+		canonicalOrder = false
+		for i, t := range cr.Top {
+			if t.Type == "uuid-prvw" && i >= 1 && i <= 8 && len(cr.Top)-1 >= 3 {
+				canonicalOrder = true
+			}
+		}
 		for i := 0; i < 4; i++ {
 			if o.CMT[i] == nil {
 				continue
